@@ -11,6 +11,11 @@ NOTES = ("Contract-based deductive verification. Each check extracts the real fu
          "otherwise labelled bounded and not counted) discharge every obligation. Exit 2 = undecided (lost anchor / unsupported construct / solver limit), never an alarm.")
 
 CLAIMS = {
+    "C07": dict(
+        technique="structural sequencing/dominance obligations on the real text of make_broadcastable_changes and insert_local_changes (extractor-discharged) + Verus contracts on two fragments of broadcast_changes",
+        text="Obligations on the real code that the user statements, the bookkeeping insert and tx.commit() run in this order with `?` propagation, that the bookkeeping snapshot is committed and the broadcast spawned only after the database commit and only when a version was produced, that a request which changed nothing returns no version and books nothing, that the booked version is exactly the peeked next db_version, and (Verus) that the version's rows are chunked from seq 0 to last_seq and each chunk is announced unchanged with its own seq range. Rollback on failure and 'exactly one greater' are SQLite / cr-sqlite behaviour and are assumed.",
+        note="Structural obligations are syntactic facts about the real text, reported as such. Assumed: rusqlite transaction semantics, crsql_peek_next_db_version, tiling of the chunker (proved under C08).",
+    ),
     "C09": dict(
         technique="Verus contracts on the extracted hand-written speedy decoders (totality stand-ins: panic / reservation / unchecked-UTF-8 obligations) and on the real pack_columns / unpack_columns against a spec of the documented key format; Kani complete proof of the packed-integer width rule; replay searches on the real crate",
         text="Unbounded proof (any input length) that the four hand-written decoders cannot reach a panic, only reserve memory bounded by a constant or by the bytes left in the reader, and only build Text from validated UTF-8; full-domain proof that num_bytes_needed_i64 is the extension's minimal big-endian width; unbounded proof that unpack_columns is total and returns exactly what the documented packed-key format decodes to (zero-extended integers/lengths) and that pack_columns emits exactly that format for up to 255 columns. The lemma composing the two (dec(enc(x)) == x), derived (speedy-derive) codecs, frame-size limits and peak RSS are not decided.",
@@ -84,5 +89,4 @@ NOT_APPLICABLE = {
     "C19": "behaviour is SQL (VACUUM INTO, ordinal rewrites) + file locking across processes",
     "C20": "tokio concurrency (exclusion, priority, deadlock freedom); outside Kani (no threads) and Verus (needs its own sync primitives)",
     # not yet built — removed from this list as each check lands
-    "C07": "check not built yet in this round (planned: DESIGN.md §5/C07)",
 }
